@@ -119,7 +119,7 @@ func TestVerifC04Brar(t *testing.T) {
 
 	perKind, rounds := 2, 3
 	if tier == "thorough" {
-		perKind, rounds = 12, 5
+		perKind, rounds = 30, 6
 	}
 	caseID := 0
 	for ki, kind := range c04Kinds {
